@@ -24,7 +24,11 @@ InputsOK(ev) ==
   /\ \A i \in 1..2 : ev.d[i] = OfScaled(ev.d4[i], 2 - ev.e2) /\ ev.a[i] = OfScaled(ev.a4[i], 2)
 
 (* floor(n * 2^q / d) for 0 <= |n|, d > 0, staged to stay below 2^31 *)
-ScaleDiv(n, d, q) == (n \div d) * Pow2(q) + ((n % d) * Pow2(q)) \div d
+RECURSIVE FracDiv(_, _, _)
+FracDiv(r, d, q) ==                        \* floor(r * 2^q / d) for 0 <= r < d < 2^18, in steps of 12 bits
+  IF q <= 12 THEN (r * Pow2(q)) \div d
+  ELSE LET t == r * 4096 IN (t \div d) * Pow2(q - 12) + FracDiv(t % d, d, q - 12)
+ScaleDiv(n, d, q) == (n \div d) * Pow2(q) + FracDiv(n % d, d, q)
 
 JudgeFit(ev) ==
   IF ~InputsOK(ev) THEN "hint"
